@@ -104,6 +104,15 @@ def handle : Sexp → Sexp
         .list go.1
       .list [one sts, one (sts.map fun fr => [fr.flatten])]
     | _, _ => sym "bad-request"
+  | .list [.atom "sses", .list frags] =>
+    -- EventSource.parseEventStream: once three bytes are there a leading UTF-8 BOM is taken off, then parseEvents
+    match bytesList frags with
+    | some fr =>
+      let whole := fr.flatten
+      let r := if whole.length < 3 then sym "waiting"
+        else sseObs (sseReader.run {} (if isPrefix [239, 187, 191] whole then whole.drop 3 else whole))
+      .list [r, r]
+    | none => sym "bad-request"
   | .list [.atom "sse", .list frags] =>
     match bytesList frags with
     | some fr => .list [sseObs (fr.foldl sseReader.feed ({}, [])), sseObs (sseReader.run {} fr.flatten)]
@@ -135,7 +144,8 @@ def handle : Sexp → Sexp
         if kind == "wsgi" then
           .list [sym "-", .list ((t.zip cs).map fun (e, fc) =>
             let c := e.1
-            if fc.2 || fc.1.length > 1 then .list [sym "-", sym "-"]
+            if fc.2 || fc.1.length > 1 || isInfix (ascii "raise") fc.1.flatten || isInfix (ascii "/httperror") fc.1.flatten
+            then .list [sym "-", sym "-"]      -- closing / fragmented / what the application does: not compared
             else if !(isLive c.st.1) || (c.st.1.phase == .start && c.st.2.isEmpty) then .list [ofNat c.answers, ofBool c.alive]
             else .list [sym "-", sym "-"])]
         else .list [sym "-"]
